@@ -89,7 +89,8 @@ def check(repo: Repo, rep: Report) -> None:
             return "raise", "IndexError(list)"
 
     try:
-        for H, W in SIZES:
+        sizes = SIZES + ([(h, ww) for h in range(0, 5) for ww in range(0, 5) if h == 4 or ww == 4] if rep.tier == "thorough" else [])
+        for H, W in sizes:
             s = w.solver()
             fr = w.cw.new("BoolGridFrame", s, H, W)
             hor, ver = fr.attrs["horizontal"], fr.attrs["vertical"]
